@@ -50,8 +50,8 @@ func checkSplit(c *Ctx, p *Program, prop string, prefixes []string) {
 					continue
 				}
 				name := p.staticCalleeName(c0)
-				if name == "" {
-					continue
+				if name == "" || strings.Contains(name, "encoding/binary.") {
+					continue // fixed-width readers / writers take an open-ended suffix and use its first bytes only
 				}
 				for i, a := range c0.Args {
 					sl, ok := a.(*ssa.Slice)
@@ -108,7 +108,6 @@ func checkSplit(c *Ctx, p *Program, prop string, prefixes []string) {
 func init() {
 	for prop, pres := range map[string][]string{
 		"C01": {"kem/", "hpke"},
-		"C02": {"sign/"},
 		"C07": {"hpke"},
 	} {
 		prop, pres := prop, pres
